@@ -448,3 +448,135 @@ def blocks_only_via(body, sw_block, taken):
 def const_of(o):
     k = o.get("k")
     return k["v"] if k else None
+
+
+def must_pass(body, target_block, through, start=0):
+    """True iff every CFG path from `start` to target_block contains a block of `through`"""
+    through = set(through)
+    if target_block in through or start in through:
+        return True
+    seen = set()
+    st = [start]
+    while st:
+        b = st.pop()
+        if b in seen or b in through:
+            continue
+        seen.add(b)
+        if b == target_block:
+            return False
+        st.extend(body.succs(b))
+    return True
+
+
+def root_place(body, o, depth=10):
+    """follow plain copies/moves/refs/derefs of an operand back to the place it started from"""
+    p = op_place(o) if isinstance(o, dict) and ("c" in o or "m" in o) else o
+    while p is not None and depth > 0:
+        proj = [e for e in p["p"] if e != "*"]
+        if proj:
+            # resolve the base local through a reference if it is a simple ref
+            ds = [d for d in body.defs().get(p["l"], []) if not d[2]["d"]["p"]]
+            if len(ds) == 1 and ds[0][1] != "T" and ds[0][2]["rv"]["r"] in ("ref", "use"):
+                rv = ds[0][2]["rv"]
+                q = rv["p"] if rv["r"] == "ref" else op_place(rv["o"])
+                if q is not None:
+                    p = {"l": q["l"], "p": q["p"] + p["p"]}
+                    depth -= 1
+                    continue
+            return p
+        ds = [d for d in body.defs().get(p["l"], []) if not d[2]["d"]["p"]]
+        if len(ds) != 1 or ds[0][1] == "T":
+            return p
+        rv = ds[0][2]["rv"]
+        if rv["r"] == "use":
+            q = op_place(rv["o"])
+        elif rv["r"] == "ref":
+            q = rv["p"]
+        elif rv["r"] == "cast":
+            q = op_place(rv["o"])
+        else:
+            return p
+        if q is None:
+            return p
+        p = {"l": q["l"], "p": q["p"] + p["p"]}
+        depth -= 1
+    return p
+
+
+def place_fields(p):
+    """named fields along a place's projection"""
+    return [e.split(":", 1)[1] for e in (p["p"] if p else []) if e.startswith(".") and ":" in e and e.split(":", 1)[1]]
+
+
+def backward_slice(body, o, depth=40):
+    """transitive backward data slice of an operand inside one body.
+    Returns dict with 'calls' (list of call terminators), 'fields' (set of field names read),
+    'consts' (set of ints), 'ops' (set of binary/unary operator names), 'args' (set of argument locals)"""
+    out = {"calls": [], "fields": set(), "consts": set(), "ops": set(), "args": set(), "aggs": []}
+    seen = set()
+
+    def visit_op(o, d):
+        k = o.get("k") if isinstance(o, dict) else None
+        if k is not None:
+            if k["v"] is not None:
+                out["consts"].add(k["v"])
+            return
+        p = op_place(o) if isinstance(o, dict) else None
+        if p is not None:
+            visit_place(p, d)
+
+    def visit_place(p, d):
+        for f in place_fields(p):
+            out["fields"].add(f)
+        l = p["l"]
+        if l in seen or d <= 0:
+            return
+        seen.add(l)
+        ds = body.defs().get(l, [])
+        if not ds and 1 <= l <= body.j["argc"]:
+            out["args"].add(l)
+        if 1 <= l <= body.j["argc"]:
+            out["args"].add(l)
+        for bi, si, dd in ds:
+            if si == "T":
+                out["calls"].append(dd)
+                for a in dd["a"]:
+                    visit_op(a, d - 1)
+                continue
+            rv = dd["rv"]
+            r = rv["r"]
+            if r in ("use", "cast", "un", "repeat"):
+                if r == "un":
+                    out["ops"].add(rv["op"])
+                visit_op(rv["o"], d - 1)
+            elif r == "bin":
+                out["ops"].add(rv["op"])
+                visit_op(rv["a"], d - 1)
+                visit_op(rv["b"], d - 1)
+            elif r in ("ref", "disc"):
+                visit_place(rv["p"], d - 1)
+            elif r == "agg":
+                out["aggs"].append(rv)
+                for x in rv["ops"]:
+                    visit_op(x, d - 1)
+    visit_op(o, depth)
+    return out
+
+
+def slice_with_captures(F, body, o, depth=40):
+    """backward_slice that continues through closure captures into the creating function"""
+    sl = backward_slice(body, o, depth)
+    if body.kind == "Closure" and 1 in sl["args"]:
+        parent = F.body(body.path.rsplit("::{closure#", 1)[0])
+        if parent is not None:
+            for bl in parent.blocks:
+                for s in bl["s"]:
+                    rv = s["rv"]
+                    if rv["r"] == "agg" and rv["ak"] == "closure" and rv["adt"] == body.path:
+                        for op in rv["ops"]:
+                            ps = slice_with_captures(F, parent, op, depth)
+                            for k in ("fields", "consts", "ops", "args"):
+                                sl[k] |= ps[k] if k != "args" else set()
+                            sl["calls"] += ps["calls"]
+                            sl["aggs"] += ps["aggs"]
+    return sl
